@@ -1,6 +1,7 @@
 package props
 
 import (
+	"bufio"
 	"bytes"
 	"errors"
 	"fmt"
@@ -28,6 +29,9 @@ type Wire struct {
 	CutAt   int              `json:"cut_at,omitempty"` // >0: the stream is truncated to this many bytes
 	Reads   []parties.ReadOp `json:"reads,omitempty"`
 	Default string           `json:"default_read,omitempty"`
+	// Wrap > 0: the reader handed to ReadPMT is a bufio.Reader of this size over the SimReader
+	// (error-free read scripts only): what kind of io.Reader it is must not matter
+	Wrap int `json:"wrap,omitempty"`
 }
 
 type C06Script struct {
@@ -39,7 +43,7 @@ type C06Script struct {
 	// the PMT PID before the PMT's unit - "other complete sections before it" in the stream
 	Prelude []ref.ForeignSection `json:"prelude,omitempty"`
 	Wire    Wire                 `json:"wire"`
-	TH       [4]int               `json:"table_header"` // table_id, syntax, private, section_length for the header round trip
+	TH      [4]int               `json:"table_header"` // table_id, syntax, private, section_length for the header round trip
 }
 
 type c06 struct{}
@@ -62,7 +66,7 @@ func (c06) Info() core.Info {
 			"descriptor bodies are compared through the decoders for the decodable kinds; opaque descriptors by tag only (the API exposes no raw body)",
 			"after an injected reader error ReadPMT may return that error or the exact answer; truncation before the last needed packet must give ErrPMTNotFound",
 		},
-		RequiredProbes: []string{"first_packet_payload_le3", "split_inside_header", "split_inside_descriptor", "split_before_crc", "pointer_gt0", "foreign_section_before", "interleaved", "af_len0_stuffing", "multi_packet_ge3", "section_len_ge_1000", "other_pmt_on_other_pid", "trailing_stuffing", "truncated_before_end", "zero_streams", "es_info_length_ge_256", "program_info_length_ge_256", "prelude_unit_on_pmt_pid", "pointer_255", "held_pmt_rechecked", "more_than_255_descriptors", "entry_starts_with_ff_ff_ff", "pmt_after_70000_packets", "pat_and_two_pmts_from_one_reader"},
+		RequiredProbes: []string{"first_packet_payload_le3", "split_inside_header", "split_inside_descriptor", "split_before_crc", "pointer_gt0", "foreign_section_before", "interleaved", "af_len0_stuffing", "multi_packet_ge3", "section_len_ge_1000", "other_pmt_on_other_pid", "trailing_stuffing", "truncated_before_end", "zero_streams", "es_info_length_ge_256", "program_info_length_ge_256", "prelude_unit_on_pmt_pid", "pointer_255", "held_pmt_rechecked", "more_than_255_descriptors", "entry_starts_with_ff_ff_ff", "pmt_after_70000_packets", "pat_and_two_pmts_from_one_reader", "reader_is_a_bufio_reader", "foreign_packet_on_pid_4_to_15"},
 	}
 }
 
@@ -136,6 +140,9 @@ func (c06) Gen(r *core.Rand, tier string) interface{} {
 	}
 	pid := r.Pick(0x20, 0x64, 0x40, 0xFFF, 0x1100, 0x1FFE, r.Range(0x40, 0xFFF))
 	s.Wire = genWire(r, plen, pid)
+	if r.Chance(1, 4) {
+		s.Wire.Wrap = r.Pick(16, 188, 189, 4096)
+	}
 	if r.Chance(1, 12) {
 		s.Wire.CutAt = r.Range(1, ((plen+183)/184+s.Wire.Foreign)*188)
 	}
@@ -195,6 +202,24 @@ func foreignPkts(w Wire, c *core.Ctx) []parties.Pkt {
 	var out []parties.Pkt
 	var otherPMT []parties.Pkt
 	for i := 0; len(out) < w.Foreign; i++ {
+		if (i*11+w.Salt)%7 == 0 {
+			// a PID a sync heuristic refuses (4..15), or an ordinary one, with a payload full
+			// of things that look like packet starts
+			var p parties.Pkt
+			pid := 4 + (i+w.Salt)%12 // never a PMT PID of these checks (all >= 0x20)
+			p[0], p[1], p[2], p[3] = 0x47, byte(pid>>8), byte(pid), 0x10|byte(i&0x0f)
+			for k := 4; k < 188; k++ {
+				p[k] = byte(k*13 + w.Salt)
+			}
+			for k := 5 + w.Salt%40; k+4 <= 188; k += 23 + w.Salt%17 {
+				p[k], p[k+1], p[k+2], p[k+3] = 0x47, byte(0x01+w.Salt%3), byte(k), 0x10
+			}
+			out = append(out, p)
+			if c != nil && pid < 16 {
+				c.Probe("foreign_packet_on_pid_4_to_15")
+			}
+			continue
+		}
 		switch (i + w.Salt) % 4 {
 		case 0:
 			out = append(out, parties.NullPacket(w.Salt+i))
@@ -546,7 +571,12 @@ func (c06) Exec(script interface{}, c *core.Ctx) {
 	sr.DefaultKind = s.Wire.Default
 	var pm psi.PMT
 	var err error
-	if !c.Call("psi.ReadPMT", func() { pm, err = psi.ReadPMT(sr, s.Wire.Carrier.PID) }) {
+	var rd io.Reader = sr
+	if s.Wire.Wrap > 0 && !parties.HasErrOps(s.Wire.Reads) {
+		rd = bufio.NewReaderSize(sr, s.Wire.Wrap)
+		c.Probe("reader_is_a_bufio_reader")
+	}
+	if !c.Call("psi.ReadPMT", func() { pm, err = psi.ReadPMT(rd, s.Wire.Carrier.PID) }) {
 		return
 	}
 	c.Log("readpmt err=%v reads=%d pos=%d", err, sr.Calls, sr.Pos())
@@ -586,7 +616,9 @@ func (c06) Exec(script interface{}, c *core.Ctx) {
 		dp := parties.Packetise(ref.Payload(0, [][]byte{decoy.Section()}, 0), parties.Carrier{PID: s.Wire.Carrier.PID, Sizes: sizes, Styles: []string{"ff", "ff", "ff"}})
 		var dpm psi.PMT
 		var derr error
-		if !c.Call("psi.ReadPMT(decoy)", func() { dpm, derr = psi.ReadPMT(parties.NewSimReader(parties.Flatten(dp), nil, nil), s.Wire.Carrier.PID) }) {
+		if !c.Call("psi.ReadPMT(decoy)", func() {
+			dpm, derr = psi.ReadPMT(parties.NewSimReader(parties.Flatten(dp), nil, nil), s.Wire.Carrier.PID)
+		}) {
 			return
 		}
 		if derr != nil {
